@@ -24,7 +24,7 @@ fn spec_line_col(src: &str, offset: usize) -> Option<(usize, usize)> {
 }
 
 fn linecol_cases(ctx: &mut Ctx, src: &str) {
-    let doc = match ast::Document::parse(src, "d.graphql") { Ok(d) => d, Err(e) => e.partial };
+    let doc = match catch(|| ast::Document::parse(src, "d.graphql")) { Ok(Ok(d)) => d, Ok(Err(e)) => e.partial, Err(m) => { ctx.fail("ast-parse-panic", src, &m); return } };
     let Some(file) = doc.sources.values().next() else { return };
     for off in 0..=src.len() + 1 {
         let got = file.get_line_column(off).map(|lc| (lc.line, lc.column));
@@ -129,8 +129,53 @@ fn location_cases(ctx: &mut Ctx, src: &str) {
     }
 }
 
+/// `c11.ranges`: rowan's `text_range()` of every element of the parsed document (CST), compared with
+/// the model's prefix sums; every NAME node must be one IDENT token whose range slices the source to
+/// its text (unless the tree lost a token — the C02 finding, reported through the AST walk)
+fn ranges_case(ctx: &mut Ctx, src: &str) {
+    use apollo_parser::{cst::CstNode, SyntaxElement, SyntaxKind as K, SyntaxNode};
+    fn go(n: &SyntaxNode, src: &str, all: &mut Vec<String>, names: &mut Vec<String>, ident: &mut bool, off: &mut Vec<String>) {
+        let r = n.text_range();
+        let (a, l): (usize, usize) = (r.start().into(), r.len().into());
+        all.push(format!("{:?}:{a}:{l}", n.kind()));
+        if n.kind() == K::NAME {
+            let ok = src.get(a..a + l).is_some_and(|s| s == n.text().to_string());
+            names.push(format!("{a}:{l}:{}", if ok { "ok" } else { "off" }));
+            if !ok { off.push(format!("NAME {:?} has range {a}..{}, which is {:?}", n.text().to_string(), a + l, src.get(a..a + l))); }
+            let cs: Vec<SyntaxElement> = n.children_with_tokens().collect();
+            if !(cs.len() == 1 && matches!(&cs[0], SyntaxElement::Token(t) if t.kind() == K::IDENT)) { *ident = false; }
+        }
+        for c in n.children_with_tokens() {
+            match c {
+                SyntaxElement::Node(m) => go(&m, src, all, names, ident, off),
+                SyntaxElement::Token(t) => { let r = t.text_range(); let (a, l): (usize, usize) = (r.start().into(), r.len().into()); all.push(format!("{:?}:{a}:{l}", t.kind())); }
+            }
+        }
+    }
+    let out = catch(|| {
+        let tree = apollo_parser::Parser::new(src).recursion_limit(500).parse();
+        let root = tree.document().syntax().clone();
+        let (mut all, mut names, mut ident, mut off) = (vec![], vec![], true, vec![]);
+        go(&root, src, &mut all, &mut names, &mut ident, &mut off);
+        let lossless = root.text().to_string() == src;
+        (format!("{} | {} | {} {}", all.join(" "), names.join(" "), if ident { "names=ident" } else { "names=other" }, if lossless { "lossless" } else { "lossy" }), names.len(), ident, lossless, off)
+    });
+    match out {
+        Err(m) => { ctx.fail("cst-parse-panic", src, &m); ctx.case("c11.ranges", &[enc(src)], "PANIC"); }
+        Ok((line, n, ident, lossless, off)) => {
+            ctx.case("c11.ranges", &[enc(src)], &line);
+            ctx.stat_n("cst_names_checked", n as u64);
+            if !ident { ctx.fail("cst-name-node-not-one-ident", src, "a NAME node is not exactly one IDENT token"); }
+            if lossless { for b in off.iter().take(2) { ctx.fail("cst-name-range-wrong", src, b); } } else { ctx.stat("cst_lossy_trees"); }
+            if n > 0 && !src.is_ascii() { ctx.nontrivial(src); }
+        }
+    }
+}
+
 pub fn run(ctx: &mut Ctx) {
-    for s in ["", "a", "é\nb", "a\r\nb\rc\n", "# \u{c}x\u{2028}y\u{85}z\u{b}\n{ a }", "\"é\u{2029}\" type A { f: Int }", "\u{feff}{ a }", "{\n  日本: a\n}"] { linecol_cases(ctx, s); location_cases(ctx, s); }
+    for s in ["", "a", "é\nb", "a\r\nb\rc\n", "# \u{c}x\u{2028}y\u{85}z\u{b}\n{ a }", "\"é\u{2029}\" type A { f: Int }", "\u{feff}{ a }", "{\n  日本: a\n}"] { linecol_cases(ctx, s); location_cases(ctx, s); ranges_case(ctx, s); }
+    // trees that lost a token (C02 finding): the model reproduces the shifted ranges
+    for s in ["type A{a:[!]b:B}", "type A { _x: [\" é\" Bar_1] y: C }", "{ a(b: $c) ... on D @e(f: \"é\") { g } }", "query Q($v: [I!]! = [1]) { f }"] { ranges_case(ctx, s); }
     let mut all = vec![];
     for_all_strings(&["a", "é", "😀", "\n", "\r", "\u{c}", "\u{2028}", "\u{85}", " "], if ctx.thorough { 6 } else { 5 }, |s| all.push(s.to_string()));
     for s in &all { linecol_cases(ctx, s); }
@@ -147,10 +192,13 @@ pub fn run(ctx: &mut Ctx) {
             src = pcs[..at].concat() + ins + &pcs[at..].concat();
         }
         location_cases(ctx, &src);
+        if src.len() < 600 { ranges_case(ctx, &src); }
         if i % 10 == 0 && src.len() < 300 { linecol_cases(ctx, &src); }
         // diagnostics report those positions (JSON locations = line_column of the span)
         if i % 20 == 0 {
-            if let Err(e) = ast::Document::parse(format!("{src} }}"), "d.graphql") {
+            let parsed = catch(|| ast::Document::parse(format!("{src} }}"), "d.graphql"));
+            if let Err(m) = &parsed { ctx.fail("ast-parse-panic", &format!("{src} }}"), m); }
+            if let Ok(Err(e)) = parsed {
                 for d in e.errors.iter().take(3) {
                     let j = d.to_json();
                     if let (Some(loc), Some(l)) = (d.error.location(), j.locations.first()) {
